@@ -211,7 +211,7 @@ func (sc *Scope) evalVal(e *SExpr) Val {
 			for _, fi := range path {
 				lv = lv.extend(PathElem{Kind: 'f', Field: fi})
 			}
-			return Val{IsPtr: true, P: lv}
+			return Val{IsPtr: true, P: lv, LValue: true}
 		}
 		t := sc.dataOf(e.Args[0], base)
 		if t.Sort.Role == "ptr" {
@@ -279,6 +279,17 @@ func (sc *Scope) binary(e *SExpr) Term {
 	case "<==>":
 		return Eq(sc.evalBool(e.Args[0]), sc.evalBool(e.Args[1]))
 	}
+	if op == "==" || op == "!=" {
+		for i := 0; i < 2; i++ {
+			if e.Args[i].Op == "id" && e.Args[i].Name == "nil" {
+				r := sc.call(&SExpr{Op: "call", Name: "isNil", Args: []*SExpr{e.Args[1-i]}})
+				if op == "!=" {
+					return Not(r)
+				}
+				return r
+			}
+		}
+	}
 	var a, b Term
 	switch {
 	case isLit(e.Args[0]) && !isLit(e.Args[1]):
@@ -334,6 +345,14 @@ func (sc *Scope) binary(e *SExpr) Term {
 		case "%":
 			if a.Sort.Kind == KInt {
 				return App(SInt, "mod", a, b)
+			}
+		case "<<", ">>":
+			if a.Sort.Kind == KInt && b.K != nil && b.K.IsInt64() && b.K.Int64() >= 0 && b.K.Int64() < 200 {
+				p := IntLit(new(big.Int).Lsh(big.NewInt(1), uint(b.K.Int64())), SInt)
+				if op == "<<" {
+					return App(SInt, "*", a, p)
+				}
+				return App(SInt, "div", a, p)
 			}
 		}
 	case KBV:
@@ -434,7 +453,7 @@ func (sc *Scope) call(e *SExpr) Term {
 		return Select(FieldOf(m, 0), sc.evalWant(e.Args[1], m.Sort.Key))
 	case "isNil":
 		v := sc.evalVal(e.Args[0])
-		if v.IsPtr {
+		if v.IsPtr && !v.LValue {
 			return BoolT(v.P == nil)
 		}
 		t := sc.dataOf(e.Args[0], v)
@@ -447,7 +466,7 @@ func (sc *Scope) call(e *SExpr) Term {
 		sc.errorf(e, "isNil of %s", t.Sort)
 	case "deref":
 		v := sc.evalVal(e.Args[0])
-		if v.IsPtr {
+		if v.IsPtr && !v.LValue {
 			return sc.dataOf(e.Args[0], v)
 		}
 		t := sc.dataOf(e.Args[0], v)
@@ -495,6 +514,37 @@ func (sc *Scope) call(e *SExpr) Term {
 			return toInt(t)
 		}
 		return t
+	}
+	if m, ok := sc.ex.P.contracts.Macros[e.Name]; ok {
+		if len(m.Params) != len(e.Args) {
+			sc.errorf(e, "macro %s expects %d arguments", m.Name, len(m.Params))
+		}
+		inner := &Scope{ex: sc.ex, names: map[string]Val{}, st: sc.st, old: sc.old, bound: sc.bound}
+		for i, p := range m.Params {
+			if isLit(e.Args[i]) {
+				inner.names[p] = Val{T: sc.evalWant(e.Args[i], nil)}
+			} else {
+				inner.names[p] = sc.evalVal(e.Args[i])
+			}
+		}
+		if sc.old != nil && sc.old != sc {
+			// old() inside a macro body refers to the caller's old state with the same argument bindings
+			on := map[string]Val{}
+			osc := &Scope{ex: sc.ex, names: sc.old.names, st: sc.old.st, old: sc.old, bound: sc.bound}
+			for i, p := range m.Params {
+				func() {
+					defer func() { recover() }()
+					if isLit(e.Args[i]) {
+						on[p] = Val{T: osc.evalWant(e.Args[i], nil)}
+					} else {
+						on[p] = osc.evalVal(e.Args[i])
+					}
+				}()
+			}
+			inner.old = &Scope{ex: sc.ex, names: on, st: sc.old.st, bound: sc.bound}
+			inner.old.old = inner.old
+		}
+		return inner.eval(m.Body)
 	}
 	// lemma application (in `use` clauses): the instantiated statement
 	if lm := sc.ex.P.findLemma(sc.ex.pkgOfTop(), e.Name); lm != nil {
